@@ -22,6 +22,7 @@ import re
 import select
 import signal
 import sys
+import tempfile
 import time
 import traceback
 
@@ -31,7 +32,7 @@ from core.prng import Rng
 TIMING = ("predict_time", "learn_time")
 AWKWARD_LABELS = ["red wine", "white wine", "dry  gin", " lead", "trail ", "it's", 'quo"te', "back\\slash", "ünï cødé", "tab\there",
                   "a,b", "[x]", "{k: v}", "(1, 2)", "None", "1", "1.0", "", "new\nline", "plain"]
-MARK = re.compile(r"TOYFAIL:(?:env|lrn|val|kwargs)\d+:\w+")
+MARK = re.compile(r"TOYFAIL:(?:env|lrn|val|kwargs)\d+:\w+(?:@e[\w.\-]*\.l\w+\.v\w+)?")
 
 
 # ------------------------------------------------------------------ construction from a recipe
@@ -347,6 +348,71 @@ def canon_result(r):
             "ints": [[list(k), ints[k]] for k in order]}
 
 
+def resumed_run(case, cfg, how, sched, resume):
+    """an interrupted-and-resumed run: the experiment is run once into a result file, a PRNG-chosen subset of the record
+    lines is kept (whole lines: torn lines are C02's subject), then the freshly constructed experiment is run again
+    with the same result_file under `cfg`.  Returns the Result of the second run and the records that were kept."""
+    import coba.multiprocessing as cmp
+    from coba.context import CobaContext, BasicLogger, NullCacher, NullLogger
+    from coba.pipes import ListSink
+    saved = _ctx_get()
+    old_mp = cmp.Multiprocessor
+    d = tempfile.mkdtemp(prefix="c01resume")
+    path = os.path.join(d, "result.log")
+    sink = ListSink()
+    try:
+        _ctx_set((NullLogger(), NullCacher(), {}, {}))
+        build(case).exp.run(result_file=path, processes=1, maxchunksperchild=0, maxtasksperchunk=0, seed=case["seed"])
+        lines = [l for l in open(path, encoding="utf-8").read().split("\n") if l.strip()]
+        rng = Rng(resume["drop"], "resume")
+        kept, old = [], []
+        for l in lines:
+            rec = json.loads(l)
+            if rec[0] in ("version", "experiment"):
+                kept.append(l)
+            elif rng.chance(resume.get("keep", 0.5)):
+                kept.append(l)
+                old.append(rec)
+        with open(path, "w", encoding="utf-8") as f:
+            f.write("\n".join(kept) + "\n")
+        CobaContext.logger = BasicLogger(sink)
+        if how == "sim" and (cfg[0] > 1 or cfg[1] != 0):
+            cmp.Multiprocessor = make_sim(sched, [])
+        b = build(case)
+        res = b.exp.run(result_file=path, processes=cfg[0], maxchunksperchild=cfg[1], maxtasksperchunk=cfg[2], seed=case["seed"])
+        return {"result": canon_result(res), "log": [str(x) for x in sink.items], "old": old, "triples": [list(t) for t in b.triples],
+                "lrn_states": [], "lrn_modified": [], "assign": [], "pre_assign": [], "store_clean": True}
+    finally:
+        cmp.Multiprocessor = old_mp
+        _ctx_set(saved)
+        try:
+            for n in os.listdir(d):
+                os.remove(os.path.join(d, n))
+            os.rmdir(d)
+        except OSError:
+            pass
+
+
+def old_for_model(old):
+    """the kept log records in the driver's format (toy rows as [x,p,n,seed(,li)])"""
+    out = []
+    for rec in old:
+        if rec[0] in ("E", "L", "V"):
+            out.append([rec[0], rec[1], json.dumps(_plain(rec[2]), sort_keys=True)])
+        elif rec[0] == "I":
+            packed = rec[2].get("_packed", {}) if isinstance(rec[2], dict) else {}
+            n = len(next(iter(packed.values()))) if packed else 0
+            rows = []
+            for i in range(n):
+                row = [packed[k][i] for k in ("x", "p", "n", "seed")]
+                if packed.get("li") is not None and packed["li"][i] is not None:
+                    row.append(packed["li"][i])
+                rows.append(row)
+            key = list(rec[1]) + ([0] if len(rec[1]) == 2 else [])
+            out.append(["I", key, rows])
+    return out
+
+
 def run_once(case, cfg, how="inproc", sched=0, built=None, trace=None, pre=None):
     """construct the experiment afresh and run it under cfg=(processes,maxchunksperchild,maxtasksperchunk).
     how: 'inproc' / 'real' use coba unchanged; 'sim' substitutes the permuting simulator.
@@ -471,8 +537,10 @@ def isolated(fn, *args, timeout=60, **kw):
     return val
 
 
-def run_iso(case, cfg, how="inproc", sched=0, pre=None):
+def run_iso(case, cfg, how="inproc", sched=0, pre=None, resume=None):
     slow = how == "real" or (pre or {}).get("how") == "real"
+    if resume:
+        return isolated(resumed_run, case, cfg, how, sched, resume, timeout=60 if slow else 25)
     return isolated(run_once, case, cfg, how, sched, pre=pre, timeout=60 if slow else 25)
 
 
@@ -619,6 +687,18 @@ def compare_with_model(driver, case, obs, run, o, label=""):
     for plain cases, against the σ-free `run`; (C) model = spec whenever the isolation hypothesis holds"""
     fails = []
     picks = [Rng(run["sched"], "picks", i).below(97) for i in range(12)]
+    if run.get("resume"):
+        # (A) for a resumed run: `runResumed` on the records that were kept in the log (σ-free model, plain cases only)
+        ans = driver.ask(dict(obs, seed=case["seed"], cfg=run["cfg"], picks=picks, old=old_for_model(o["old"])))
+        mv = model_view(o["result"])
+        for part in ("exp", "envs", "lrns", "vals", "ints"):
+            if mv[part] != ans["resumed"]["result"][part]:
+                fails.append(F("A", "%sresumed run, cfg %s (%s): table %s of the real Result %s differs from the model's %s" % (
+                    label, run["cfg"], run["how"], part, json.dumps(mv[part])[:300], json.dumps(ans["resumed"]["result"][part])[:300]), "A:resumed:" + part))
+                break
+        if ans["resumed"]["result"] != ans["spec_plain"]:
+            fails.append(F("C", "model: runResumed %s differs from resultS" % (run["cfg"],), "C:run_eq_spec_restored"))
+        return fails, ans
     req = dict(obs, seed=case["seed"], cfg=run["cfg"], picks=picks, assign=o.get("assign", []))
     if run.get("pre"):
         req["pre"] = {"seed": run["pre"]["seed"], "cfg": run["pre"]["cfg"], "assign": o.get("pre_assign", []), "picks": []}
@@ -797,7 +877,12 @@ def gen_runs(rng, tier, real_p, n_alt, seed=1):
         multi = cfg[0] > 1 or cfg[1] != 0
         how = "inproc" if not multi else ("real" if rng.chance(real_p) else "sim")
         run = {"cfg": cfg, "how": how, "sched": rng.randint(0, 10 ** 6)}
-        if rng.chance(0.22):
+        if rng.chance(0.12):
+            # interrupted and resumed: a first run into a result file, part of the record lines kept, a second run under this cfg
+            run["resume"] = {"drop": rng.randint(0, 10 ** 6), "keep": rng.choice([0.3, 0.5, 0.5, 0.8])}
+            if run["how"] == "real":
+                run["how"] = "sim"
+        elif rng.chance(0.22):
             # a session: the same recipe was already run once in this process, with another seed (and configuration)
             pcfg = list(cfg) if rng.chance(0.6) else gen_cfg(rng)
             pmulti = pcfg[0] > 1 or pcfg[1] != 0
@@ -1051,6 +1136,9 @@ def shrink_case(case):
                 c2[j] -= 1
                 yield dict(case, runs=runs[:k] + [dict(runs[k], cfg=c2)] + runs[k + 1:])
     for k in range(1, len(runs)):
+        if runs[k].get("resume"):
+            yield dict(case, runs=runs[:k] + [{a: b for a, b in runs[k].items() if a != "resume"}] + runs[k + 1:])
+    for k in range(1, len(runs)):
         if runs[k].get("pre"):
             yield dict(case, runs=runs[:k] + [{a: b for a, b in runs[k].items() if a != "pre"}] + runs[k + 1:])
     if case.get("rerun"):
@@ -1146,7 +1234,8 @@ class C01(Property):
             "configurations (processes 1-4, maxchunksperchild 0-3, maxtasksperchunk 0-5; in-process, permuting simulator or really spawned "
             "workers); runs may be preceded by an earlier run of the same session in the same process; toy learners may write "
             "CobaContext.learning_info, toy evaluators ignore / clear+flush / only flush it (the last = not process-local clean: model "
-            "prediction only), toy learners may be un-copyable; non-trivial = at least two configurations compared and at least one "
+            "prediction only), toy learners may be un-copyable or carry a finish() hook; 12 % of the non-base runs are interrupted-and-"
+            "resumed runs (result file, part of the record lines kept, second run) compared with runResumed of the model; non-trivial = at least two configurations compared and at least one "
             "interaction row recorded")
     trusted_base = [
         "components are deterministic functions of their own object state, the seed and — since phase 2 — an explicit process state σ "
@@ -1159,7 +1248,8 @@ class C01(Property):
         "TransactionEncode/Decode (JSON round trip of records) is C07's property; the model starts from the decoded records",
     ]
     assumptions = ["objects are compared by identity (no user __eq__/__hash__)", "evaluators are truthy objects",
-                   "a restored result file is absent (resuming is C02)"]
+                   "a restored result file holds whole record lines of an earlier run of the same experiment (torn lines, gz members and "
+                   "the byte-level codec are C02's subject); run_eq_spec_restored covers any subset of finished tasks in any order"]
     partial_theorems = {}
 
     def generate(self, rng, tier):
@@ -1222,7 +1312,7 @@ class C01(Property):
                 runs = runs[:k]
                 break
             try:
-                o = run_iso(case, run["cfg"], run["how"], run["sched"], run.get("pre"))
+                o = run_iso(case, run["cfg"], run["how"], run["sched"], run.get("pre"), run.get("resume"))
             except RunTimeout as e:
                 # never a verdict about the property: reported as infrastructure, the remaining runs are dropped
                 fails.append(F("T", "cfg %s (%s): %s" % (run["cfg"], run["how"], e), "timeout"))
@@ -1232,6 +1322,8 @@ class C01(Property):
             outs.append(o)
             if run.get("pre"):
                 tags.append("session:pre-run-" + run["pre"]["how"])
+            if run.get("resume"):
+                tags.append("resumed-run")
             tags.append("how:" + run["how"])
             multi = run["cfg"][0] > 1 or run["cfg"][1] != 0
             tags.append("cfg:%s%s%s" % ("multi" if multi else "inproc", ",mc>0" if run["cfg"][1] else "", ",mt>0" if run["cfg"][2] else ""))
@@ -1246,7 +1338,7 @@ class C01(Property):
         for run, o in list(zip(runs, outs))[1:]:
             d = [] if leaky else diff_tables(base, o["result"])
             if d:
-                sig = "cfg-dependent:" + "+".join(d)
+                sig = ("resumed-differs:" if run.get("resume") else "cfg-dependent:") + "+".join(d)
                 ks = known_sig(case, base, o["result"])
                 if ks:
                     sig = "cfg-dependent:ints:" + ks
@@ -1294,6 +1386,8 @@ class C01(Property):
             for run, o in zip(runs, outs):
                 if leaky and (run["how"] == "real" or (run.get("pre") or {}).get("how") == "real"):
                     continue        # which worker pulled which chunk is only known for the simulator
+                if run.get("resume") and not is_plain(case):
+                    continue        # the model of resumed runs is the σ-free one
                 fs, ans = compare_with_model(driver, case, obs, run, o)
                 fails += fs
                 model = ans["model"]
